@@ -10,6 +10,9 @@ Decided:
               decode rejects a wrong length and a wrong magic.
   AGREE-C30c  time index: the ordered item list written by append_track (widths, endianness, source) equals the
               list read by read_track; every written item is also hashed; the magic read is compared.
+  AGREE-C30e  time index, order contract: append_track sorts by the tuple (timestamp, frame_id) before writing and
+              read_track rejects exactly that order's violations, so everything the encoder writes is accepted by the
+              decoder whatever order the caller supplied (shared with C15).
   MPT-C30d    every Ok exit of Toc::decode lies on the `bytes_read == bytes.len()` edge (no trailing bytes) in all
               three format arms.
 Not decided: round-trip equality for arbitrary values."""
@@ -313,6 +316,9 @@ def _is_err_exit(fn, ex):
 
 
 def run(ctx):
+    from . import c15
+    ctx.rule('AGREE-C30e', 'time index: the writer sorts by (timestamp, frame_id); the reader validates the same lexicographic order')
+    c15._key(ctx, ctx.facts(), rule='AGREE-C30e')
     ctx.rule('AGREE-C30a', 'header field -> (offset, width, endianness): encode map == decode map; disjoint; validated fields agree')
     ctx.rule('AGREE-C30b', 'footer field -> (offset, width): encode == decode; magic at 0; decode rejects wrong length/magic')
     ctx.rule('AGREE-C30c', 'time-index item list written == read == hashed')
